@@ -56,7 +56,18 @@
    R14 Type patterns: membership is structural; `^` refers to the root of the alias being
        expanded (or of the written type); generic aliases are instantiated by substitution.
        Function/process/resource/module types, type spreads and `^n` (n>0) are outside the
-       fragment (`EUnsupported`). *)
+       fragment (`EUnsupported`). 
+   R15 `*` over a value whose STATIC type is a union (spec "Destructuring": "Star (all named
+       fields)"; silent about unions): the compiler brings every label of every variant into
+       scope and the labels the matched value does not carry are nil (semantics fixed by the F64
+       repair, /verif/hooks/fix_F64.msg; also the value star binders have after a failed match,
+       R3).  The evaluator is untyped, so it cannot enumerate those labels; it records that a star
+       pattern was matched in a scope (a reserved entry `a_star` in the environment, block-scoped
+       like any binding) and, in such a scope, a name that is NOT bound reads as nil
+       (`lookup_var`).  For a program the compiler accepted such a name can only be a star binder
+       of another variant.  Imprecision (outside the fragment, avoided by the generator): when an
+       OUTER binding has the same name as a label only another variant carries, the compiler's
+       star re-binds it to nil while the evaluator still reads the outer binding. *)
 From Coq Require Import ZArith List Bool.
 Import ListNotations.
 Open Scope Z_scope.
@@ -64,6 +75,9 @@ Open Scope Z_scope.
 Definition atom := Z.
 Definition a_Ok : atom := 0.
 Definition a_Str : atom := 1.
+(* reserved environment entry "a star pattern was matched in this scope" (R15); the driver's
+   atoms are non-negative *)
+Definition a_star : atom := -1.
 
 (* ast.rs:135 enum Literal *)
 Inductive literal :=
@@ -293,6 +307,13 @@ Fixpoint lookup (x : atom) (e : env) : option value :=
   match e with
   | [] => None
   | (y, v) :: r => if x =? y then Some v else lookup x r
+  end.
+
+(* R15: reading a variable *)
+Definition lookup_var (x : atom) (e : env) : option value :=
+  match lookup x e with
+  | Some v => Some v
+  | None => match lookup a_star e with Some _ => Some vnil | None => None end
   end.
 
 Fixpoint find_field (l : atom) (fs : list (option atom * value)) : option value :=
@@ -678,12 +699,18 @@ Fixpoint pmatch (n : nat) (te : tenv) (outer : env) (b : env) (p : pattern) (v :
       end
   | MStar name =>
       match v with
-      | VTuple vname vfs => if name_ok name vname then bind_star b vfs else PFail
+      | VTuple vname vfs =>
+          if name_ok name vname then
+            match bind_star b vfs with
+            | POk b' => POk ((a_star, vnil) :: b')       (* R15 *)
+            | other => other
+            end
+          else PFail
       | _ => PFail
       end
   | MPlaceholder => POk b
   | MReference x =>
-      match lookup x outer with
+      match lookup_var x outer with
       | Some w => eq_verdict b w v
       | None => PErr (EStuck s_unbound)
       end
@@ -700,7 +727,7 @@ Fixpoint pmatch (n : nat) (te : tenv) (outer : env) (b : env) (p : pattern) (v :
   | MAs t x => type_verdict n te t v (bind_var b x v)
   end.
 
-(* the binders a pattern has statically (`*` has none: they depend on the value) *)
+(* the binders a pattern has statically (`*`: only the marker of R15; its names depend on the value) *)
 Fixpoint binders (p : pattern) : list atom :=
   match p with
   | MIdentifier x => [x]
@@ -712,6 +739,7 @@ Fixpoint binders (p : pattern) : list atom :=
                          end) fields
   | MOr (q :: _) => binders q
   | MAs _ x => [x]
+  | MStar _ => [a_star]
   | _ => []
   end.
 
@@ -796,7 +824,7 @@ Section Eval.
             | None => with_env e (access_all v path)
             | Some Ripple => with_env e (access_all v path)
             | Some (Identifier x) =>
-                match lookup x e with
+                match lookup_var x e with
                 | Some base => with_env e (do w <- access_all base path ;; apply_value m w v)
                 | None => Error (EStuck s_unbound)
                 end
@@ -814,7 +842,7 @@ Section Eval.
                 | None, _ => Error (EUnsupported u_toplevel_tail)
                 end
             | Some (TailCall (Some x)) =>
-                match lookup x e with
+                match lookup_var x e with
                 | Some base =>
                     do f <- access_all base path ;;
                     if is_callable f then TailC f (tail_arg f v) st0 else Error (EStuck s_notfun)
@@ -828,7 +856,7 @@ Section Eval.
         | Reference (mkAccess src path) =>
             match src with
             | Some (Identifier x) =>
-                match lookup x e with
+                match lookup_var x e with
                 | Some base => with_env e (access_all base path)
                 | None => Error (EStuck s_unbound)
                 end
@@ -947,7 +975,7 @@ Section Eval.
             do x <- eval_chain m c e ch v ;;
             eval_fields m c (snd x) r v (add_field acc l (fst x)) inh
         | TupleField _ (FSpread src) :: r =>
-            match (match src with None => Some v | Some x => lookup x e end) with
+            match (match src with None => Some v | Some x => lookup_var x e end) with
             | Some (VTuple sname sfs) =>
                 eval_fields m c e r v (add_fields acc sfs)
                             (match inh with None => Some sname | Some _ => inh end)
